@@ -292,6 +292,78 @@ Qed.
 End StepInd.
 
 (* ------------------------------------------------------------------ *)
+(* reachability at the granularity of micro-steps: also the states in the middle of the
+   thread-local code that follows a shared-memory operation.  Every state of [reach] is one. *)
+Inductive mreach (c : cfg) (fut : bool) : state -> Prop :=
+| mr_init : mreach c fut (init fut)
+| mr_begin s a A cl pc :
+    mreach c fut s -> get (ags s) a = Some A -> a_pc A = Idle -> a_alive A = true ->
+    entry c (a_role A) cl = Some pc -> fresh_target s a cl = true ->
+    mreach c fut (begin_call s a A cl pc)
+| mr_micro s a A o :
+    mreach c fut s -> get (ags s) a = Some A ->
+    (is_local (a_pc A) = true \/ enabled a A (sh s) = true) ->
+    micro c a A (sh s) = Some o -> new_ok s a o = true -> mreach c fut (apply1 s a o)
+| mr_spur s a A o :
+    mreach c fut s -> get (ags s) a = Some A -> micro_spur c A (sh s) = Some o ->
+    mreach c fut (apply1 s a o)
+| mr_tick s : mreach c fut s -> mreach c fut (mkstate (tick (sh s)) (ags s)).
+
+Lemma reach_mreach c fut s : reach c fut s -> mreach c fut s.
+Proof.
+  apply reach_inv.
+  - intros; eapply mr_begin; eauto.
+  - intros; eapply mr_micro; eauto.
+  - intros; eapply mr_spur; eauto.
+  - intros; apply mr_tick; auto.
+  - constructor.
+Qed.
+
+Section MStepInd.
+Variable c : cfg.
+Variable P : state -> Prop.
+Hypothesis Hbegin : forall s a A cl pc,
+  P s -> get (ags s) a = Some A -> a_pc A = Idle -> a_alive A = true ->
+  entry c (a_role A) cl = Some pc -> fresh_target s a cl = true ->
+  P (begin_call s a A cl pc).
+Hypothesis Hmicro : forall s a A o,
+  P s -> get (ags s) a = Some A ->
+  (is_local (a_pc A) = true \/ enabled a A (sh s) = true) ->
+  micro c a A (sh s) = Some o -> new_ok s a o = true -> P (apply1 s a o).
+Hypothesis Hspur : forall s a A o,
+  P s -> get (ags s) a = Some A -> micro_spur c A (sh s) = Some o -> P (apply1 s a o).
+Hypothesis Htick : forall s, P s -> P (mkstate (tick (sh s)) (ags s)).
+
+Lemma mreach_inv fut : P (init fut) -> forall s, mreach c fut s -> P s.
+Proof.
+  intros P0 s R. induction R; eauto.
+Qed.
+End MStepInd.
+
+(* the same with the knowledge that the predecessor state is itself micro-reachable *)
+Section MStepInd2.
+Variable c : cfg.
+Variable fut : bool.
+Variable P : state -> Prop.
+Hypothesis Hbegin : forall s a A cl pc,
+  mreach c fut s -> P s -> get (ags s) a = Some A -> a_pc A = Idle -> a_alive A = true ->
+  entry c (a_role A) cl = Some pc -> fresh_target s a cl = true ->
+  P (begin_call s a A cl pc).
+Hypothesis Hmicro : forall s a A o,
+  mreach c fut s -> P s -> get (ags s) a = Some A ->
+  (is_local (a_pc A) = true \/ enabled a A (sh s) = true) ->
+  micro c a A (sh s) = Some o -> new_ok s a o = true -> P (apply1 s a o).
+Hypothesis Hspur : forall s a A o,
+  mreach c fut s -> P s -> get (ags s) a = Some A -> micro_spur c A (sh s) = Some o -> P (apply1 s a o).
+Hypothesis Htick : forall s, mreach c fut s -> P s -> P (mkstate (tick (sh s)) (ags s)).
+
+Lemma mreach_inv2 : P (init fut) -> forall s, mreach c fut s -> P s.
+Proof.
+  intros P0 s R. induction R; eauto.
+Qed.
+End MStepInd2.
+
+(* ------------------------------------------------------------------ *)
 (* case analysis over the micro-step                                    *)
 Lemma dealloc_all_eq l S S1 e1 : dealloc_all l S = (S1, e1) ->
   exists lv fr bd, S1 = set_g_bad bd (set_freed fr (set_live lv S)).
